@@ -171,6 +171,14 @@ class LocRun:
                     break
                 a, b = map_ids(oi[k], ti), map_ids(ol[k], tl)
                 if op["op"] in ops and canon_out(op, a) != canon_out(op, b):
+                    # the two runs happen at different wall-clock times: a relative ttl written in different seconds yields different
+                    # absolute `expires` values, which a search can expose; not a difference between the states
+                    def ttl_at(j):
+                        d = ci["ops"][j].get("fact") or ci["ops"][j].get("rule") or {}
+                        return isinstance(d, dict) and ("ttl" in d or (isinstance(d.get("rule"), dict) and "ttl" in d["rule"]))
+                    if any(ttl_at(j) and isinstance(oi[j], dict) and isinstance(ol[j], dict) and (oi[j].get("now"), oi[j].get("now2")) != (ol[j].get("now"), ol[j].get("now2")) for j in range(k + 1)):
+                        self.stats["cross_state_skipped_clock"] += 1
+                        break
                     cls = self.classify(ci, k, op, a, a) or self.classify(cl, k, op, b, b)
                     if cls:
                         self.known_hits.setdefault(cls, (ci, k)); self.stats["known_class_ops"] += 1
